@@ -8,7 +8,7 @@ LEVEL = "other"
 
 def run(ctx, rep):
     rep.explanation = (
-        "In the routing loop: decision over (header known, selection is None, pair in selection) shows a section is built and stored "
+        "The header table is the format's 40 names, each mapped to its own (instrument, difficulty) pair.  In the routing loop: decision over (header known, selection is None, pair in selection) shows a section is built and stored "
         "iff not (selection given and pair not in it) -- an empty selection is a selection; the selection parameter flows nowhere "
         "else (taint) and is tested on the pairs as given; a skipped section's body is never consumed (bodies are lazy slices); the "
         "built track depends only on its table pair, its own body and the shared tempo map, is stored under that pair, and nothing is "
@@ -20,6 +20,9 @@ def run(ctx, rep):
     parts = C.routing(r0)
     if parts is not None:
         C.check_routing(r0, parts, r1)
+        rt = rep.rule("table", "the header table has exactly the format's 40 '<Difficulty><Instrument>' names, each mapped to its own "
+                               "pair ('the tracks that exist in the file' are the sections with these names)", floor=2)
+        C.check_table(rt, parts)
     r2 = rep.rule("framing", "each header gets exactly the lines between its braces (S5)", floor=8)
     C.check_framing(r2)
     r3 = rep.rule("own-lines", "the track parses its own lines only", floor=1)
